@@ -1413,18 +1413,21 @@ class Worker:
         # a second serialisation must give the same text (to_json must not alter what it serialises)
         try:
             txt2 = self._call(lambda: slot.obj.to_json())
-            out["restore_same"] = (txt2 == txt) if form != "dict" else (json.dumps(json.loads(txt2)) == json.dumps(json.loads(txt)))
+            # (the dict form is compared as a document, not as text: to_dict and to_json need not agree on member order)
+            out["restore_same"] = (txt2 == txt) if form != "dict" else (_canon(txt2) == _canon(txt))
         except Exception as e:  # noqa: BLE001
             out["restore_same"] = _cls(e)
         out["doc_digest"] = D.text(txt)
         if slot.gen == 0 and slot.fit_doc is not None:
-            same = txt == slot.fit_doc  # text, not parsed values: NaN != NaN would fake a difference
+            # text, not parsed values: NaN != NaN would fake a difference
+            same = (txt == slot.fit_doc) if form != "dict" else (_canon(txt) == _canon(slot.fit_doc))
             out["same_as_fit"] = same
             if not same:
                 out["fit_diff_paths"] = D.top_diff(json.loads(slot.fit_doc), json.loads(txt))
         if slot.origin_doc is not None and slot.origin_doc in store:
             orig = store[slot.origin_doc]["text"]
-            same = (_canon(txt) == _canon(orig)) if slot.canon else (txt == orig)
+            same = (_canon(txt) == _canon(orig)) if (slot.canon or form == "dict" or store[slot.origin_doc].get("form") == "dict") \
+                else (txt == orig)
             out["same_as_origin"] = same
             if not same:
                 try:
@@ -1537,7 +1540,7 @@ class Worker:
         out["restore_mode"] = mode
         if retxt is not None:
             # a document that came back in another member order is the same document: compared in canonical form
-            out["redoc_same"] = (_canon(retxt) == _canon(txt)) if slot.canon else (retxt == txt)
+            out["redoc_same"] = (_canon(retxt) == _canon(txt)) if (slot.canon or entry.get("form") == "dict") else (retxt == txt)
             if not out["redoc_same"]:
                 try:
                     out["redoc_diff_paths"] = D.top_diff(json.loads(txt), json.loads(retxt))
